@@ -7,7 +7,7 @@ THEOREMS = {
         "Dawgs.C03.Props.wellScoped_sound", "Dawgs.C03.Props.wellScoped_no_error", "Dawgs.C03.Props.wellScoped_no_unbound",
         "Dawgs.C03.Props.applyShape_match", "Dawgs.C03.Props.cte_columns_match",
         "Dawgs.C03.Props.params_closed", "Dawgs.C03.Props.missing_param_rejected", "Dawgs.C03.Props.c03_partial",
-        "Dawgs.C03.Props.c03_partial_S2", "Dawgs.C03.Props.tr_wellScoped", "Dawgs.C03.Props.c03_partial_S3", "Dawgs.C03.Props.c03_partial_S4",
+        "Dawgs.C03.Props.c03_partial_S2", "Dawgs.C03.Props.tr_wellScoped", "Dawgs.C03.Props.c03_partial_S3", "Dawgs.C03.Props.c03_partial_S4", "Dawgs.C03.Props.c03_partial_S5",
     ],
 }
 
@@ -252,7 +252,7 @@ SPEC = {
                      "harness/sexp.go reflection rendering of the pgsql AST and Driver/SqlSexp.lean reader (unknown node -> unmodelled, never guessed)",
                      "SQL passed as TEXT to the *_harness functions (shortest paths) is not bound: those statements are counted as unmodelled dynamic-sql"],
     "assumptions": ["per-output validation: the universally quantified claim is wellScoped_sound (binder ⇒ resolution succeeds); that every emitted statement passes the binder is "
-                    "checked case by case, and PROVED only for the model translator of C01 (c03_partial : C03_for C01.tr, c03_partial_S2 : forall flipOf, C03_for (C01.tr2F flipOf) — every stage-S1 and every stage-S2b (one directed hop with WHERE, either join order) "
+                    "checked case by case, and PROVED only for the model translator of C01 (c03_partial : C03_for C01.tr, c03_partial_S2 : forall flipOf prune, C03_for (C01.tr2F flipOf prune) — every stage-S1 and every stage-S2b (one directed hop with WHERE, either join order) "
                     "statement resolves under the schema with no parameters, tied to the real translator by C01's suite c01tie); C03_full (a total translator) stays a visible undischarged Prop"],
 }
 
@@ -265,10 +265,11 @@ MANIFEST = {
             "unchanged tree, see known_findings.json), unknown AST nodes and dynamic SQL are counted as unmodelled. "
             "params_closed / missing_param_rejected: acceptance under the parameter names ps excludes the missing-parameter error, and a statement using a parameter outside ps is rejected. "
             "c03_partial : C03_for C01.tr — PROVED for the model translator of C01 (stage S1, all queries, all kind maps): its statements pass the binder, hence resolve, under the schema with "
-            "no parameters. c03_partial_S2 : forall flipOf, C03_for (C01.tr2F flipOf) and tr_wellScoped — the same for S1 plus stage S2b (MATCH (a)-[r]->(b) [WHERE single-variable conjuncts] RETURN items "
-            "over a, r, b; both join orders, every combination of kind constraints, every list of conjuncts: Proofs/C03Frag.lean bPredAt — a lowered S1 predicate binds wherever its alias "
-            "shows id / properties / kind column); c03_partial_S3 : forall flipOf flipCh, C03_for (C01.tr3F flipOf flipCh) adds stage S2c, chains of two or three hops (frames s0, s1[, s2] "
-            "with the carried columns and the `!=` guards, final projection over the last frame: ChainB.tr_wellScopedCh); c03_partial_S4 : forall flipOf flipCh fast, C03_for (C01.tr4F flipOf flipCh fast) adds stage S1c, the two "
-            "count statements (fast path / node frame, with or without alias: CountB.tr_wellScopedCount): the statement passes the binder (wellScoped = true) under the schema with the empty parameter list. C03_full (the same for a total translator) is a visible, undischarged Prop.",
+            "no parameters. c03_partial_S2 : forall flipOf prune, C03_for (C01.tr2F flipOf prune) and tr_wellScoped — the same for S1 plus stage S2b (MATCH (a)-[r]->(b) [WHERE single-variable conjuncts] RETURN items "
+            "over a, r, b; both join orders, the frame pruned to the read bindings or complete, every combination of kind constraints, every list of conjuncts: Proofs/C03Frag.lean bPredAt — a lowered S1 predicate binds wherever its alias "
+            "shows id / properties / kind column); c03_partial_S3 : forall flipOf flipCh prune, C03_for (C01.tr3F flipOf flipCh prune) adds stage S2c, chains of two or three hops (frames s0, s1[, s2] "
+            "with the carried columns and the `!=` guards, final projection over the last frame: ChainB.tr_wellScopedCh); c03_partial_S4 : forall flipOf flipCh fast prune, C03_for (C01.tr4F flipOf flipCh fast prune) adds stage S1c, the two "
+            "count statements (fast path / node frame, with or without alias: CountB.tr_wellScopedCount); c03_partial_S5 adds stage S2n, count(x) over a hop frame "
+            "(CountHopB.tr_wellScopedCountHop): the statement passes the binder (wellScoped = true) under the schema with the empty parameter list. C03_full (the same for a total translator) is a visible, undischarged Prop.",
     "note": "Not a proof about the Go translator: per-output validation. PostgreSQL's scoping rules are a trusted Lean transcription of the documentation (no server in the sandbox).",
 }
